@@ -36,7 +36,12 @@ def child_env(extra=None) -> dict:
         [src_dir(), str(VERIF)]
         + ([env["PYTHONPATH"]] if env.get("PYTHONPATH") else [])
     )
-    env["NUMBA_CACHE_DIR"] = str(VERIF / ".cache" / "numba" / source_hash())
+    # two "kernel worlds": the on-disk numba cache seeded by a single-thread solve first (S) or by a multi-thread solve
+    # first (P).  On a tree whose cache entries do not distinguish the two kernel variants the worlds behave differently
+    # (whichever variant was cached first is served for both); shards alternate between them.
+    world = env.get("VERIF_KERNEL_WORLD", "S")
+    env["VERIF_KERNEL_WORLD"] = world
+    env["NUMBA_CACHE_DIR"] = str(VERIF / ".cache" / "numba" / (source_hash() + "-" + world))
     env.setdefault("MPLBACKEND", "Agg")
     if extra:
         env.update(extra)
